@@ -47,6 +47,14 @@ var mgWants = []mgWant{
 	{"internal/trigger/api/iteration_jitter.go", "", "WithJitter", "return", "jitter"},
 	{"internal/trigger/ramp/ramp_rate.go", "", "CalculateRampRate", "rateFn", "ramp_rateFn"},
 	{"internal/trigger/staged/calculator.go", "RateCalculator", "Rate", "", "staged_Rate"},
+	{"internal/trigger/gaussian/gaussian_rate.go", "Calculator", "For", "", "gauss_For"},
+	{"internal/raterun/runner.go", "schedules", "start", "", "schedules_start"},
+	{"internal/raterun/runner.go", "schedules", "currentFrequency", "", "schedules_currentFrequency"},
+	{"pkg/f1/testing/t.go", "T", "Fail", "", "t_Fail"},
+	{"pkg/f1/testing/t.go", "T", "FailNow", "", "t_FailNow"},
+	{"pkg/f1/testing/t.go", "T", "Reset", "", "t_Reset"},
+	{"pkg/f1/testing/t.go", "T", "Failed", "", "t_Failed"},
+	{"pkg/f1/testing/t.go", "T", "TeardownFailed", "", "t_TeardownFailed"},
 	{"internal/trigger/file/file_parser.go", "ConfigFile", "validateCommonFields", "", "file_validateCommonFields"},
 	{"internal/trigger/file/file_parser.go", "Stage", "validateCommonFieldsOfStage", "", "file_validateCommonFieldsOfStage"},
 	{"internal/trigger/file/file_parser.go", "Stage", "validateConstantStage", "", "file_validateConstantStage"},
@@ -65,7 +73,7 @@ var effectMethods = map[string]bool{"Lock": true, "Unlock": true, "RLock": true,
 
 // niladic methods with a fixed arithmetic meaning, and calls with arguments that are built-in arithmetic
 var builtin1 = map[string]bool{"Milliseconds": true, "IsZero": true, "Nanoseconds": true}
-var builtin2 = map[string]bool{"Sub": true, "Add": true, "Before": true, "After": true}
+var builtin2 = map[string]bool{"Sub": true, "Add": true, "Before": true, "After": true, "Truncate": true}
 var mathFns = map[string]int{"math.Ceil": 1, "math.Floor": 1, "math.Round": 1, "math.Max": 2, "math.Min": 2}
 
 // functions whose result is not a function of the program state: oracles
@@ -242,6 +250,12 @@ func (c *mgCtx) expr(e ast.Expr) string {
 	case *ast.BinaryExpr:
 		if op, ok := binOps[x.Op]; ok {
 			return "(.bin ." + op + " " + c.expr(x.X) + " " + c.expr(x.Y) + ")"
+		}
+		return c.unsupportedE(e)
+	case *ast.IndexExpr:
+		// a slice of scalars: x.items[i]
+		if p := c.path(x.X); p != "" {
+			return "(.index " + leanStr(p) + " " + c.expr(x.Index) + " \"\")"
 		}
 		return c.unsupportedE(e)
 	case *ast.FuncLit:
